@@ -21,7 +21,7 @@ CLAIMS = {
         "stage the inverse reads what the forward wrote for the same role: Stacker stack/unstack and rename pairs on sample_name/feature_name with "
         "dims_mapping, Dataset variable-level name, dispatch on the stored type name, dimension order restored on every unstack path; Concatenator "
         "splits with the offsets it concatenated with and re-attaches the recorded coordinates; MultiIndexConverter records/restores exactly the "
-        "converted dimensions with the right reference per inverse; DimensionRenamer inverts its own mapping. List items reach xr.concat with their own sample labels and are joined by label (no override join, raw-array concatenation or sample relabelling); the two MultiIndex coordinate stores are distinct objects; the MultiIndex inverse re-attaches the labels and rebuilds the index. The level names recorded for a serialised MultiIndex coordinate are the index's own names. Stacker.transform stacks with the dimension lists recorded at fit; mappings keyed by the stringified list position are walked in insertion or numeric order.",
+        "converted dimensions with the right reference per inverse; DimensionRenamer inverts its own mapping. List items reach xr.concat with their own sample labels and are joined by label (no override join, raw-array concatenation or sample relabelling); the two MultiIndex coordinate stores are distinct objects; the MultiIndex inverse re-attaches the labels and rebuilds the index. The level names recorded for a serialised MultiIndex coordinate are the index's own names. Stacker.transform stacks with the dimension lists recorded at fit; mappings keyed by the stringified list position are walked in insertion or numeric order. Stacker.transform compares the labels along every feature dimension in order with the recorded ones and brings a Dataset into the variable / dimension layout recorded at fit; the unstack variants rename the stacked sample name only where it is a dimension of the data.",
         "note": "Necessary structural clauses only. Not decided: value-at-label equality, xarray's stack/unstack behaviour for exotic indexes, sortedness "
         "after unstack. Label paths for unseen data are decided under C05, NaN re-insertion under C06.",
         "technique": "call-sequence extraction against a table literal, writer/reader agreement by provenance, match-dispatch comparison",
@@ -31,7 +31,7 @@ CLAIMS = {
         "by the inverted operator under the same flag, once, with the mean removed first and restored last; every def-use path of data through "
         "the stage objects of the single- and cross-set families respects preprocessor -> pca -> whitener forward and the reverse back, never "
         "crosses fields, and public results leave through the preprocessor's inverse; PCA/whitener score maps are identities; every "
-        "'normalized' switch divides in score-producing directions and multiplies in the others by the per-mode norms of the same field. Whitener un-whitening uses Tinv with the conjugation of T (PCA: V and V^H); every 'normalized' switch is either applied to a per-mode norm or handed on. No accessor rescales stored arrays in place; in functions serving both fields the switch acts on both; arrays computed from a coordinate carry their own name (so that the serialiser does not store them as that coordinate). The whitening kernel's outputs are labelled T: (feature, mode), Tinv: (mode, feature).",
+        "'normalized' switch divides in score-producing directions and multiplies in the others by the per-mode norms of the same field. Whitener un-whitening uses Tinv with the conjugation of T (PCA: V and V^H); every 'normalized' switch is either applied to a per-mode norm or handed on. No accessor rescales stored arrays in place; in functions serving both fields the switch acts on both; arrays computed from a coordinate carry their own name (so that the serialiser does not store them as that coordinate). The whitening kernel's outputs are labelled T: (feature, mode), Tinv: (mode, feature). No real-part / modulus projection precedes un-whitening and PCA expansion in the cross-set family; the Dataset and DataArray unstack variants agree on the guarded rename.",
         "note": "Necessary structural clauses only. Not decided: the numerical round-trip identity, SparsePCA/POP approximations.",
         "technique": "affine-map extraction by provenance + guard analysis, stage-chain order typing over def-use paths, field-index typing",
     },
@@ -40,7 +40,7 @@ CLAIMS = {
         "whitener pattern map are patterns and may not serve as projection weights, and the number of forward stages on the data matches the basis of "
         "the components; the cross rotator stores its vectors in whitened PC space; every per-mode factor the rotators' fit applies to the model's "
         "score chain and stores (singular values, norms, sign) is applied by transform with the same operator, per field; no list accumulator "
-        "initialised before a loop is rebound inside it (positive fixture fires each run). Rotator transform re-sorts its projections exactly as _sort_by_variance re-sorts the stored entries. What reaches the projection / prediction algorithm has passed every forward stage of its field; rotated vectors are lowered through both pattern inverses before the rotation; fit and transform agree on the per-mode factors in both directions; every result is re-sorted; no accessor rescales stored arrays in place. The rotators' transform rotates projections with the inverse conjugate transpose obtained through the shared helper (as fit does).",
+        "initialised before a loop is rebound inside it (positive fixture fires each run). Rotator transform re-sorts its projections exactly as _sort_by_variance re-sorts the stored entries. What reaches the projection / prediction algorithm has passed every forward stage of its field; rotated vectors are lowered through both pattern inverses before the rotation; fit and transform agree on the per-mode factors in both directions; every result is re-sorted; no accessor rescales stored arrays in place. The rotators' transform rotates projections with the inverse conjugate transpose obtained through the shared helper (as fit does). The stored sign convention multiplies the re-sorted projections, once.",
         "note": "Necessary structural clauses only. Not decided: numerical equality, tolerance, sign identity as values. Field-index and stage-order "
         "clauses of transform are decided under C03/C09; the rotation-matrix pairing under C11; label paths under C05.",
         "technique": "pattern/weight and basis typing of dot-product operands from stage provenance, fit-vs-transform factor agreement by source signatures, AST lint with fixture",
@@ -59,7 +59,7 @@ CLAIMS = {
         "isolated-NaN predicate (count in {0, number of valid features}), the returned array is where(features & samples, drop=True); the coordinate "
         "identity check raises and dominates the mask computation; fit goes through transform; the three inverse maps reindex the right dimension to "
         "the right remembered coordinates and scores/components/inverse_transform of every concrete model reach them; the cross-set fit is checked for "
-        "a joint treatment of both fields' valid samples (known finding: absent). Per-item sample deletions of list input are reconciled by label at concatenation. The rotator's sample count is that of the decomposed matrix.",
+        "a joint treatment of both fields' valid samples (known finding: absent). Per-item sample deletions of list input are reconciled by label at concatenation. The rotator's sample count is that of the decomposed matrix. Fitted statistics combined with the data before the sanitizer stage are finite at entirely missing features (filled after the reduction).",
         "note": "Necessary structural clauses only. Not decided: equality with the model fitted on reduced data; NaN-freeness of values. Known "
         "finding CROSS.joint recorded in known_findings.json.",
         "technique": "guard/raise role analysis by provenance of the guard condition, dominators, call-graph reachability",
@@ -68,7 +68,7 @@ CLAIMS = {
         "text": "Every module, function and call site of xeofs is enumerated: no dimension is addressed through the "
         "literals 'sample'/'feature' (constants, keywords, attribute access), no callee with a literal dimension "
         "default is called without the configured names, and Stacker canonicalises to (sample_name, feature_name). "
-        "This is the necessary structural clause of naming-independence; exhaustive over the finite site space. List items are aligned by sample label whatever order each stores its samples in; Stacker inverses change labels only by rename / unstack. Rotated loadings return to model space pca -> whitener (label-based products pair labels of the same space). Per-element bookkeeping keyed '0', '1', ... is walked in list order.",
+        "This is the necessary structural clause of naming-independence; exhaustive over the finite site space. List items are aligned by sample label whatever order each stores its samples in; Stacker inverses change labels only by rename / unstack. Rotated loadings return to model space pca -> whitener (label-based products pair labels of the same space). Per-element bookkeeping keyed '0', '1', ... is walked in list order. Stacker.transform stacks with the recorded dimension lists and the recorded Dataset layout.",
         "note": "Decides the NAMES clauses only. Not decided: numerical invariance under permutations/partitions, sign "
         "determinism as values. Trusted: ast, the class/constructor-flow resolver, the one table exemption (Scaler.dims keys).",
         "technique": "AST lint over resolved program (literal dimension designators, call-site default binding, constructor-parameter flow)",
@@ -78,7 +78,7 @@ CLAIMS = {
         "same meaning (element [i] for field i of cross-set models) and, inside the Preprocessor, the Scaler/Sanitizer keyword; in Scaler.fit/transform/"
         "inverse each flag guards exactly its own fitted factor and every factor acts once; user weights reach Scaler.weights_ unchanged through "
         "entry point -> Preprocessor -> iter_kwargs['weights'] -> per-item fit(**{k: v[i]}) for the right field and no other stage; mean_/std_ are "
-        "reductions over the sample dimensions; latitude weights are sqrt(cos(deg2rad(lat)).clip(0,1)) of a feature dimension. The user's weights reach the scaler with their own labels (no re-labelling, re-indexing or raw-value access on the way). Between sqrt(cos(lat)) and the stored factor the latitude weights pass label operations only.",
+        "reductions over the sample dimensions; latitude weights are sqrt(cos(deg2rad(lat)).clip(0,1)) of a feature dimension. The user's weights reach the scaler with their own labels (no re-labelling, re-indexing or raw-value access on the way). Between sqrt(cos(lat)) and the stored factor the latitude weights pass label operations only. Bound / fill values of the fitted mean / std are constants.",
         "note": "Necessary structural clauses only. Not decided: the invariances themselves, the 1.2e-7 clipping floor, latitude-name detection beyond the lookup.",
         "technique": "interprocedural constructor-parameter flow, guard-to-operation pairing, def-use provenance through dict/loop forwarding",
     },
@@ -88,7 +88,7 @@ CLAIMS = {
         "the complex-capable kernels (cpcca, whitener, statistics, fractional power, rotation) is a conjugate transpose; reconstruction "
         "operands are conjugated, projection operands not, score norms have exactly one conjugated factor; the sample-count comparison "
         "raises before the cross product; stage calls, dot products, norm factors and correlation calls never mix field indices "
-        "(heterogeneous patterns cross, homogeneous do not). In the shared fit each field passes preprocessing -> PCA -> augmentation -> whitening -> algorithm in that order, the whitener being fitted on the output of the augmentation. No accessor rescales the stored scores / singular vectors in place.",
+        "(heterogeneous patterns cross, homogeneous do not). In the shared fit each field passes preprocessing -> PCA -> augmentation -> whitening -> algorithm in that order, the whitener being fitted on the output of the augmentation. No accessor rescales the stored scores / singular vectors in place. The whitening matrix is (X^H X / n) ** ((alpha - 1) / 2) and the stored inverse its inverse (kernel rules shared with C16).",
         "note": "Necessary structural clauses only. Not decided: diagonal cross-covariance, proportionality factors, SCF sums, canonical "
         "correlations as numbers, bounds in [-1,1] as values. Trusted: numpy std default ddof=0.",
         "technique": "denominator/ddof classification, Hermitian-transpose lint over matmul chains, conjugation parity, guard dominance, field-index abstract typing",
@@ -109,7 +109,7 @@ CLAIMS = {
         "exactly the stored importance (explained variance / squared covariance); _sort_by_variance covers every entry with a mode "
         "dimension except the index; 'sorted' is reset before any result is stored, set after sorting, guards idempotence, transform "
         "re-sorts iff sorted, sorting is reachable only via _post_compute behind the compute flag; modes_sign multiplies all members of "
-        "its factor group in fit and transform; pseudo-norms use N-1. The importance the rotated modes are ordered by is computed from the rotated loadings; the inverse of the rotation matrix is transposed (output dimensions reversed); the kernels return a product with the rotation matrix as returned, not one formed before its last update.",
+        "its factor group in fit and transform; pseudo-norms use N-1. The importance the rotated modes are ordered by is computed from the rotated loadings; the inverse of the rotation matrix is transposed (output dimensions reversed); the kernels return a product with the rotation matrix as returned, not one formed before its last update. modes_sign is applied to the re-sorted projections, once on every path.",
         "note": "Necessary structural clauses only. Not decided: unitarity of R, conserved variance sum, Varimax criterion, reconstruction "
         "equality as numbers (the numerical core of _varimax/_promax is not analysed).",
         "technique": "def-use provenance (pairing through a helper call), typestate of a flag over CFG dominators, loop-condition exhaustiveness, sibling agreement",
@@ -131,7 +131,7 @@ CLAIMS = {
         "literal, update, item assignment, pop) is closed under cls(**params); sklearn-style transformers store every constructor "
         "parameter under its name; every attribute assigned outside __init__ and read on a post-fit path is serialised; every marker "
         "literal a deserialiser reads is written by a serialiser; the netCDF attribute codec has no unguarded constant subscript on a "
-        "possibly empty string and no unhandled literal_eval (positive fixture fires on every run). Deserialised container attributes are distinct objects; the netCDF attribute codec is applied to node-level and variable-level attributes in both directions, written back under the key read. Arrays computed from a coordinate are named; recorded MultiIndex levels are the index's own; deserialisation entry points run no finalising hook. List transformers are rebuilt in list order (position-keyed mapping walked in insertion or numeric order).",
+        "possibly empty string and no unhandled literal_eval (positive fixture fires on every run). Deserialised container attributes are distinct objects; the netCDF attribute codec is applied to node-level and variable-level attributes in both directions, written back under the key read. Arrays computed from a coordinate are named; recorded MultiIndex levels are the index's own; deserialisation entry points run no finalising hook. List transformers are rebuilt in list order (position-keyed mapping walked in insertion or numeric order). Serialised attributes hold plain values (no raw Dataset.dims / sizes mapping proxies).",
         "note": "Necessary structural clauses only. Not decided: value identity of results after a round trip; the real netCDF/zarr "
         "engines. Known finding: GWPCA constructor closure (see known_findings.json).",
         "technique": "key-set abstract interpretation of constructor chains, writer/reader literal agreement, guard (try/except, emptiness) analysis",
@@ -174,7 +174,7 @@ CLAIMS = {
         "its uses); Scaler.transform's arithmetic with fitted arrays is dominated by a raising dimension check; 30+ role guards exist, raise under the "
         "right condition and precede the use they protect: n_modes sanity (both SVD wrappers), init_rank_reduction range, rank, negative alpha, unknown "
         "solver, item counts, transform dimensions / feature coordinates, empty dims, MultiIndex, name clash, 2-D dims, dim type, 'X or Y required', "
-        "cross-set sample count, concatenator and multi-set view validation. Every fitted array Scaler.transform combines with the data is covered by the dimension check; init_rank_reduction is validated exactly when n_modes is a variance fraction; the bounds of the n_modes validation (int < 1, float outside (0, 1], other strings) and the Stacker's container-type check are in place. In every _inverse_transform_algorithm the stored array contracted with a score argument is selected by that argument's own mode labels.",
+        "cross-set sample count, concatenator and multi-set view validation. Every fitted array Scaler.transform combines with the data is covered by the dimension check; init_rank_reduction is validated exactly when n_modes is a variance fraction; the bounds of the n_modes validation (int < 1, float outside (0, 1], other strings) and the Stacker's container-type check are in place. In every _inverse_transform_algorithm the stored array contracted with a score argument is selected by that argument's own mode labels. Feature labels of transform data are compared in order with the recorded ones.",
         "note": "Necessary structural clauses only. Not decided: which exception type; that no numbers come out for every malformed call; rejections that "
         "xarray itself performs (unknown dimension names / mode labels).",
         "technique": "must-precede (dominator) analysis of guards, raise-condition role matching, call-site binding",
@@ -209,4 +209,4 @@ for _p in ["C01", "C02", "C03", "C04", "C05", "C06", "C08", "C09", "C10", "C11",
     if _p not in CLAIMS:
         NOT_APPLICABLE[_p] = PENDING
 
-FIX_COMMITS: list[str] = ['66ece4b', 'ed076f6', '9a78ace', 'cf5abcd', '44e0064', '50d9a93', '83c3286', 'a1f053b', 'f5a50f1', 'f91da99', '5bc6ab8', '535dacf', '4fafdb0', 'f5c4825', 'b539edf', '6aa614c', '5bf1e4c', '7d40fdd', '06b897f']
+FIX_COMMITS: list[str] = ['66ece4b', 'ed076f6', '9a78ace', 'cf5abcd', '44e0064', '50d9a93', '83c3286', 'a1f053b', 'f5a50f1', 'f91da99', '5bc6ab8', '535dacf', '4fafdb0', 'f5c4825', 'b539edf', '6aa614c', '5bf1e4c', '7d40fdd', '06b897f', '456072f', '3fe121c', '76a2a6e', '3fca62d']
